@@ -52,28 +52,23 @@ var (
 //
 // Every scenario (one call of a run* function) is numbered.  An ordinary panic is recovered inside
 // the scenario and becomes an oracle failure there.  A FATAL run-time error (stack overflow, e.g. a
-// compressor writing into itself) or a stall cannot be recovered in-process: the harness first runs
-// the same scenario list in a child process (the "canary") that journals the scenario it is about
-// to start; when the canary dies or stalls, the last journalled scenario is recorded and the
-// canary is restarted behind it.  The real run then reports each such scenario as an oracle failure
-// (key scenario-panic, the scenario as replay input) instead of executing it, and continues.
+// pooled compressor that ends up writing into itself) or a stall cannot be recovered in-process, so
+// the program the orchestrator starts is only a supervisor: it runs the real harness as a worker
+// process that journals the number of the scenario it is about to start.  When the worker dies or
+// makes no progress, the supervisor adds the last journalled scenario to the list of scenarios
+// that bring the process down and runs the worker again from the start (same seed, hence the same
+// scenarios); the worker does not execute a listed scenario but reports it as an oracle failure
+// (key scenario-panic, the scenario as replay input) and continues.  On a healthy tree the worker
+// runs once.
 var (
-	scn           int
-	crashed       = map[int]string{}
-	giveUpAfter   = -1
-	canaryJournal *os.File
-	canarySkip    int
+	scn         int
+	crashed     = map[int]string{}
+	giveUpAfter = -1
+	journal     *os.File
 )
 
 func guard(c interface{}) bool {
 	scn++
-	if canaryJournal != nil {
-		if scn <= canarySkip {
-			return false
-		}
-		fmt.Fprintf(canaryJournal, "%d\n", scn)
-		return true
-	}
 	if why, ok := crashed[scn]; ok {
 		out.Fail("the scenario brings the process down: "+why, "scenario-panic", c)
 		return false
@@ -82,28 +77,41 @@ func guard(c interface{}) bool {
 		out.Count("skipped-after-too-many-crashes", strconv.Itoa(scn), false)
 		return false
 	}
+	if journal != nil {
+		fmt.Fprintf(journal, "%d\n", scn)
+	}
 	return true
 }
 
-// runCanaries fills `crashed` (parent) or switches this process into canary mode (child).
-func runCanaries(fl vh.Flags) {
-	if j := os.Getenv("C07_CANARY_JOURNAL"); j != "" {
-		f, err := os.OpenFile(j, os.O_APPEND|os.O_WRONLY|os.O_CREATE, 0o644)
-		if err != nil {
-			os.Exit(2)
+const maxCrashes = 8
+
+// supervise returns in the worker; in the supervisor it never returns.
+func supervise(fl vh.Flags) {
+	if j := os.Getenv("C07_JOURNAL"); j != "" {
+		journal, _ = os.OpenFile(j, os.O_TRUNC|os.O_WRONLY|os.O_CREATE, 0o644)
+		b, _ := os.ReadFile(os.Getenv("C07_CRASHED"))
+		for _, l := range strings.Split(string(b), "\n") {
+			if f := strings.SplitN(l, "\t", 2); len(f) == 2 {
+				n, _ := strconv.Atoi(f[0])
+				if crashed[n] = f[1]; len(crashed) >= maxCrashes {
+					giveUpAfter = n
+				}
+			}
 		}
-		canaryJournal = f
-		canarySkip, _ = strconv.Atoi(os.Getenv("C07_CANARY_SKIP"))
 		return
 	}
-	dir, err := os.MkdirTemp("", "c07canary")
+	dir, err := os.MkdirTemp("", "c07sup")
 	if err != nil {
-		return
+		return // no supervisor: run in-process as before
 	}
-	defer os.RemoveAll(dir)
-	journal := filepath.Join(dir, "journal")
+	var (
+		jf, cf = filepath.Join(dir, "journal"), filepath.Join(dir, "crashed")
+		list   string
+		code   = 2
+		eb     bytes.Buffer
+	)
 	last := func() int {
-		b, _ := os.ReadFile(journal)
+		b, _ := os.ReadFile(jf)
 		l := strings.Fields(string(b))
 		if len(l) == 0 {
 			return 0
@@ -111,62 +119,73 @@ func runCanaries(fl vh.Flags) {
 		n, _ := strconv.Atoi(l[len(l)-1])
 		return n
 	}
-	const stall = 45 * time.Second
-	for skip, n := 0, 0; ; n++ {
-		args := []string{"-seed", strconv.FormatUint(fl.Seed, 10), "-tier", fl.Tier, "-out", filepath.Join(dir, "out")}
-		if fl.Replay != "" {
-			args = append(args, "-replay", fl.Replay)
+	const stall = 40 * time.Second
+	for n := 0; n <= maxCrashes; n++ {
+		os.WriteFile(cf, []byte(list), 0o644)
+		os.Remove(jf)
+		if m, _ := filepath.Glob(filepath.Join(fl.Out, "cases*")); n > 0 {
+			for _, f := range append(m, filepath.Join(fl.Out, "meta.json")) {
+				os.Remove(f)
+			}
 		}
-		os.MkdirAll(filepath.Join(dir, "out"), 0o755)
-		var eb bytes.Buffer
-		cmd := exec.Command(os.Args[0], args...)
-		cmd.Env = append(os.Environ(), "C07_CANARY_JOURNAL="+journal, "C07_CANARY_SKIP="+strconv.Itoa(skip))
-		cmd.Stderr = &eb
+		eb.Reset()
+		cmd := exec.Command(os.Args[0], os.Args[1:]...)
+		cmd.Env = append(os.Environ(), "C07_JOURNAL="+jf, "C07_CRASHED="+cf)
+		cmd.Stdout, cmd.Stderr = os.Stdout, &eb
 		if err = cmd.Start(); err != nil {
-			return
+			break
 		}
 		done, stalled := make(chan error, 1), false
 		go func() { done <- cmd.Wait() }()
+	wait:
 		for sz, idle := int64(-1), time.Duration(0); ; {
 			select {
 			case err = <-done:
+				break wait
 			case <-time.After(time.Second):
-				if st, e := os.Stat(journal); e == nil && st.Size() != sz {
+				if st, e := os.Stat(jf); e == nil && st.Size() != sz {
 					sz, idle = st.Size(), 0
-				} else if idle += time.Second; idle >= stall {
+				} else if idle += time.Second; idle >= stall && !stalled {
 					stalled = true
 					cmd.Process.Kill()
 				}
-				continue
 			}
-			break
 		}
 		if err == nil && !stalled {
-			return
+			code = 0
+			break
+		}
+		if x, ok := err.(*exec.ExitError); ok && x.ExitCode() >= 0 && !stalled && !strings.Contains(eb.String(), "fatal error:") &&
+			!strings.Contains(eb.String(), "panic:") {
+			code = x.ExitCode() // an ordinary non-zero exit (bad replay file ...): hand it on
+			break
 		}
 		at := last()
-		if at <= skip { // died outside any scenario: nothing to attribute, let the real run show it
-			return
+		if at == 0 || strings.Contains(list, fmt.Sprintf("\n%d\t", at)) || strings.HasPrefix(list, fmt.Sprintf("%d\t", at)) {
+			break // died outside any scenario, or in one that was not executed: nothing to attribute
 		}
 		why := fmt.Sprint(err)
 		if stalled {
-			why = fmt.Sprintf("no progress for %v (killed)", stall)
+			why = fmt.Sprintf("no progress for %v (worker killed)", stall)
 		} else {
 			for _, l := range strings.Split(eb.String(), "\n") {
-				if strings.HasPrefix(l, "fatal error:") || strings.HasPrefix(l, "panic:") || strings.HasPrefix(l, "runtime: goroutine stack exceeds") {
+				if strings.HasPrefix(l, "fatal error:") || strings.HasPrefix(l, "panic:") {
 					why = strings.TrimSpace(l) + " (" + why + ")"
-					if !strings.HasPrefix(l, "runtime:") {
-						break
-					}
+					break
 				}
 			}
 		}
-		crashed[at], skip = why, at
-		if n >= 24 {
-			giveUpAfter = at
-			return
-		}
+		list += fmt.Sprintf("%d\t%s\n", at, strings.ReplaceAll(why, "\n", " "))
 	}
+	if code != 0 {
+		t := eb.String()
+		if len(t) > 4000 {
+			t = t[:4000]
+		}
+		os.Stderr.WriteString(t)
+	}
+	os.RemoveAll(dir)
+	os.Exit(code)
 }
 
 // ---------------------------------------------------------------- payloads
@@ -1737,7 +1756,7 @@ func main() {
 	out.ShardSize = 120
 	thorough = fl.Tier == "thorough"
 	r := vh.NewRand(fl.Seed)
-	runCanaries(fl)
+	supervise(fl)
 
 	if fl.Replay != "" {
 		replay(fl.Replay)
